@@ -14,7 +14,12 @@
 (*        "eofdata"  the call that delivers the last byte returns (n, EOF) *)
 (*        "err"      after k bytes a further call returns (0, error)       *)
 (*        "errdata"  the call that delivers byte k returns (n, error)      *)
-(*   k    number of bytes handed out before the failure (err / errdata)    *)
+(*        "transient" after k bytes ONE call returns (0, error); the calls  *)
+(*                   after it continue with byte k+1 (a time-out, a retry) *)
+(*        "eofmore"  after k bytes ONE call returns (0, EOF); the calls     *)
+(*                   after it continue (a queue that was empty and has been *)
+(*                   refilled: bytes.Buffer between a writer and a reader)  *)
+(*   k    number of bytes handed out before the failure                     *)
 (*                                                                         *)
 (* SrcRead is the source; ReadFull / ReadAll are the two disciplines the   *)
 (* code uses on top of it (io.ReadFull, ioutil.ReadAll).                   *)
@@ -24,15 +29,20 @@ EXTENDS Integers, Sequences
 Min2(a, b) == IF a < b THEN a ELSE b
 Limit(sch, L) == IF sch.end \in {"err", "errdata"} THEN Min2(sch.k, L) ELSE L
 
-\* one Read call with a buffer of `ask` > 0 bytes: s = [pos, i] -> [n, res \in {"nil","eof","err"}, s]
+\* one Read call with a buffer of `ask` > 0 bytes: s = [pos, i, hit] -> [n, res \in {"nil","eof","err"}, s]
+\* (hit: the one failing call of a transient / eofmore schedule has been made)
+Passing(sch) == sch.end \in {"transient", "eofmore"}
 SrcRead(sch, L, s, ask) ==
-  LET lim == Limit(sch, L)
+  LET lim == IF Passing(sch) THEN (IF ~s.hit /\ s.pos <= sch.k THEN Min2(sch.k, L) ELSE L) ELSE Limit(sch, L)   \* no fragment crosses k before the failing call
       failing == sch.end \in {"err", "errdata"}
-  IN IF s.pos >= lim
+  IN IF Passing(sch) /\ s.pos = sch.k /\ ~s.hit
+     THEN [n |-> 0, res |-> IF sch.end = "transient" THEN "err" ELSE "eof", s |-> [s EXCEPT !.hit = TRUE]]
+     ELSE
+     IF s.pos >= lim
      THEN [n |-> 0, res |-> IF failing THEN "err" ELSE "eof", s |-> s]
      ELSE LET f == sch.pat[(s.i % Len(sch.pat)) + 1]
               n == Min2(Min2(f, ask), lim - s.pos)       \* a fragment size >= ask (99) means: all that was asked for
-              s2 == [pos |-> s.pos + n, i |-> s.i + 1]
+              s2 == [s EXCEPT !.pos = s.pos + n, !.i = s.i + 1]
           IN IF n > 0 /\ s2.pos = lim /\ sch.end = "eofdata" THEN [n |-> n, res |-> "eof", s |-> s2]
              ELSE IF n > 0 /\ s2.pos = lim /\ sch.end = "errdata" THEN [n |-> n, res |-> "err", s |-> s2]
              ELSE [n |-> n, res |-> "nil", s |-> s2]
@@ -41,7 +51,7 @@ SrcRead(sch, L, s, ask) ==
 \* `probed` = it made a call after the last byte (it looked for the end of input).
 \* A failure after k bytes is observable iff the parser needs a byte beyond k, or looks for the end at k = L.
 Observed(sch, L, consumed, probed) ==
-  /\ sch.end \in {"err", "errdata"}
+  /\ sch.end \in {"err", "errdata", "transient", "eofmore"}
   /\ sch.k <= L
   /\ \/ sch.k < consumed
      \/ sch.k = L /\ consumed = L /\ probed
